@@ -62,7 +62,7 @@ type W struct {
 	cur      uint64
 	variant  string
 	aux      any // per-worker resource of the property runner (e.g. a guard region)
-	aux2 any
+	aux2     any
 }
 
 func newW(prop, tier string, seed uint64, outPath, journalPath string) *W {
